@@ -113,6 +113,25 @@ CLAIMED = {
    design="DESIGN.md §6 C17"),
 }
 
+
+EXTRA = {
+ "C01": "Sub-checks added later: cov-advance (Advance/AdvanceWrap against the integer model at every level, steps up to +-MaxInt64), cov-cellgeom, cov-siti, cov-latlng, cov-rectbound; first-use (fresh-process schedule exploration of the first cell-id conversions of a process).",
+ "C05": "Sub-checks added later: cap-grid, cap-bound-alignment (cap centres on / beside every block boundary of the bound's level next to a face edge: CellUnionBound, FastCovering and Covering contain every interior probe), covering-histories (all sequences of option changes, region mutations and covering calls on one reused coverer up to depth 3-5).",
+ "C06": "Sub-checks added later: index-histories (Add / Build / Reset / fresh and long-lived query panels, depth 3-5), cov-shape-contract (every shape constructor), cov-type-equivalence, cov-leaf-piles (collections that force leaf index cells), cov-clip-edge / cov-clip-face (ClipEdge, ClipToFace against exact clipping), cov-loop-relations.",
+ "C08": "Deepened: 45-51 indexes (holes, nesting, full/empty polygon, lax shapes, indexes straddling every brute-force / enqueue threshold, deep indexes, leaf-index-cell piles, up to 2,000 edges), interiors for all target types and both query kinds, limits derived from each query's own distances (exactly / next float up / down), MaxResults up to n+1, MaxError up to pi, brute force vs optimized as a differential pair; reuse-histories (one long-lived query across index growth, Reset, option changes: all sequences up to length 3-4); compact-index-targets.",
+ "C09": "Added later: encode / Invert / encode histories (a value that was already encoded is modified and encoded again).",
+ "C10": "Sub-checks added later: decoded-region-bounds, wide-regions, bound-histories (all sequences of bound reads, ContainsPoint, Invert, Normalize, Reverse, AddPoint on 22 objects up to depth 4-6).",
+ "C11": "Sub-check added later: algebra-histories (in-place CellUnion modifiers incl. ExpandAtLevel / ExpandByRadius with aliasing operands, reused CellIndex iterators in every visiting order, repeated s2intersect.Find).",
+ "C12": "Sub-checks added later: cell-relations (all ordered pairs), cell-scalars, areas (320-bit solid-angle reference), edge-pairs, bounds-polar.",
+ "C13": "Keys are in addition a reflective dump of the complete object graph (deepKey); machines run in separate worker processes; M3 has a 14-loop polygon and an Edges/Chains operation; M5 Reset-after-growth.",
+ "C14": "Also: full-memory happens-before pass (binary whose every pointer-reachable / package-level access of package s2 reports to the race check) on every scenario, scenario S7 (two polygons), family F-first-use (fresh-process exploration of first uses).",
+ "C17": "Sub-checks added later: cov-interior-threshold, cov-point-on-line (PointOnLine / PointToLeft / PointToRight / PointOnRay), cov-edge-pair-cases, cov-polyline-measures, cov-chordangle-trig, cov-polyline-ops, cov-polyline-intersects.",
+ "C18": "Sub-checks added later: cov-edge-centroid, cov-planar-centroid, cov-polyline-centroid, cov-fan-revert (loops whose fan origin returns to vertex 0), cov-special-loops, cov-cap / cov-rect (Area, Centroid), cov-cell-area, cov-cellunion-area.",
+ "C19": "Sub-check added later: S1-expanded-near-full (margins (2 pi - Length)/2 +- 6 ulps on generic endpoints).",
+ "C20": "Sub-checks added later: snap-declared (the four declared quantities of every snapper), snap-sites-cellid / snap-sites-intlatlng (distinct snap sites are at least MinVertexSeparation apart, exact distances), snap-inverse, projection-api.",
+}
+COMMON = " After the property's own lattice, its operations are also issued by 2-3 goroutines at once (concurrent-use panels: private inputs, and for Loop/Polygon/ShapeIndex properties one shared value): every schedule up to a preemption bound chosen from the panel size, each execution in a fresh process of a binary whose accesses to all pointer-reachable and package-level memory of package s2 feed a vector-clock happens-before check; answers must equal the serial answers."
+
 PLANNED = {  # not yet claimed: each gets a reason in not_applicable until its check is committed
 }
 
@@ -132,7 +151,7 @@ def main():
             "evidence_file": f"/verif/evidence/{pid}.json",
             "replay_cmd_template": "bash /verif/bin/replay {path}",
             "engine": c["engine"],
-            "level_claimed": {"category": c["level"], "text": c["text"], "design_ref": c["design"]},
+            "level_claimed": {"category": c["level"], "text": c["text"] + (" " + EXTRA[pid] if pid in EXTRA else "") + (COMMON if pid not in ("C14",) else ""), "design_ref": c["design"]},
             "level_note": c["note"],
             "technique": c["technique"],
         })
@@ -148,7 +167,7 @@ def main():
             "add_only": True,
         },
         "engines": [
-            {"name": "E1 sched", "path": "/verif/mc/sched + /verif/shim", "serves_properties": ["C14", "C13"], "kind_free_text": "hand-written controlled cooperative scheduler + preemption-bounded DFS and unbounded state-caching exploration (stateless model checking of the real code)"},
+            {"name": "E1 sched", "path": "/verif/mc/sched + /verif/shim + /verif/mc/checks/util_fresh.go + /verif/mc/cmd/vinstr", "serves_properties": ["C14", "C13"] + ALL, "kind_free_text": "hand-written controlled cooperative scheduler + preemption-bounded DFS and unbounded state-caching exploration (stateless model checking of the real code)"},
             {"name": "E2 opseq", "path": "/verif/mc/checks/c13.go (+ c03.go, c11.go)", "serves_properties": ["C13", "C03", "C08", "C11"], "kind_free_text": "explicit-state breadth-first search over operation histories, every transition calls the real method"},
             {"name": "E3 enum", "path": "/verif/mc/checks", "serves_properties": ["C01","C02","C04","C05","C06","C07","C09","C10","C12","C16","C17","C18","C19","C20"], "kind_free_text": "bounded-exhaustive enumeration of finite input lattices against exact reference models"},
             {"name": "E4 faults", "path": "/verif/mc/checks/c15.go", "serves_properties": ["C15"], "kind_free_text": "exhaustive byte-fault enumeration over a corpus of valid encodings, decoders run in worker sub-processes"},
